@@ -390,7 +390,7 @@ pub fn dimension_corpus(ctx: CtxK) -> Vec<Node> {
         c.push(AndV(bx(v(rp(100))), bx(pk(0))));
     }
     let _ = pkh;
-    c.extend(wrapper_towers(ctx));
+    c.extend(wrapper_towers_thin(ctx));
     c
 }
 
@@ -402,7 +402,13 @@ fn base_of_node<Pk: KeyOf, Ctx: ScriptContext>(n: &Node) -> Option<miniscript::m
 /// the context's type rules accept, embedded in a satisfiable B-typed script: each wrapper's
 /// accounting depends on properties set by the wrapper below it (`has_free_verify`, `pk_cost`,
 /// stack bounds), which single wrappers over atoms do not exercise.
-pub fn wrapper_towers(ctx: CtxK) -> Vec<Node> {
+pub fn wrapper_towers(ctx: CtxK) -> Vec<Node> { towers(ctx, false) }
+
+/// the slice of `wrapper_towers` that is part of `dimension_corpus` (consumers that pay seconds per
+/// script): every tower of height two, towers of height three topped by `v:`, one embedding each
+pub fn wrapper_towers_thin(ctx: CtxK) -> Vec<Node> { towers(ctx, true) }
+
+fn towers(ctx: CtxK, thin: bool) -> Vec<Node> {
     use miniscript::miniscript::types::Base;
     use Node::*;
     let tap = ctx == CtxK::Tap;
@@ -430,7 +436,7 @@ pub fn wrapper_towers(ctx: CtxK) -> Vec<Node> {
                 let x2 = wrap(w2, x1.clone());
                 if base_of(&x2).is_none() { continue; }
                 let mut tops = vec![x2.clone()];
-                for w3 in 0..7u8 { let x3 = wrap(w3, x2.clone()); if base_of(&x3).is_some() { tops.push(x3); } }
+                for w3 in 0..7u8 { if thin && w3 != 4 { continue; } let x3 = wrap(w3, x2.clone()); if base_of(&x3).is_some() { tops.push(x3); } }
                 for t in tops {
                     let emb: Vec<Node> = match base_of(&t) {
                         Some(Base::B) => vec![t.clone(), AndV(bx(Verify(bx(pk(7)))), bx(t.clone())), OrD(bx(pk(7)), bx(t.clone()))],
@@ -439,7 +445,7 @@ pub fn wrapper_towers(ctx: CtxK) -> Vec<Node> {
                         Some(Base::K) => vec![Check(bx(t.clone()))],
                         None => vec![],
                     };
-                    for e in emb { if base_of(&e) == Some(Base::B) && seen.insert(e.wire()) { out.push(e); } }
+                    for e in emb.into_iter().take(if thin { 1 } else { 9 }) { if base_of(&e) == Some(Base::B) && seen.insert(e.wire()) { out.push(e); } }
                 }
             }
         }
